@@ -32,8 +32,8 @@ template <class T> static std::string show_val(T v) {
 // from_int / from_uint only exist for the 16/32/64-bit types
 template <class T> static ST::string lib_from(T v, int base, bool up) {
     if constexpr (sizeof(T) == 1) { return ST::string(); }
-    else if constexpr (std::is_signed<T>::value) return ST::string::from_int(v, base, up);
-    else return ST::string::from_uint(v, base, up);
+    else if constexpr (std::is_signed<T>::value) { if (!up && ST::string::from_int(v, base) != ST::string::from_int(v, base, false)) return ST::string("!default-argument-mismatch"); return ST::string::from_int(v, base, up); }
+    else { if (!up && ST::string::from_uint(v, base) != ST::string::from_uint(v, base, false)) return ST::string("!default-argument-mismatch"); return ST::string::from_uint(v, base, up); }
 }
 template <class T> static ST::string lib_from_default(T v) {
     if constexpr (sizeof(T) == 1) { return ST::string(); }
@@ -66,8 +66,16 @@ template <class T> static std::string lib_stream(T v) {
 // ------------------------------------------------------------------ parsing side
 struct PRes { long long v; int flags; long long nv; };   // value with result, ok|full<<1, value of the overload without result
 
+// the defaulted forms (no base argument = base 0): compared with the explicit call whenever the line asks for base 0
+static bool g_default_mismatch = false;
+#define VH_DEFAULTS(R, CALL) if (base == 0) { ST::conversion_result r0, rd; R a = s.CALL(r0, 0); R b = s.CALL(rd); R c = s.CALL(0); R d = s.CALL(); \
+        if (a != b || c != d || r0.ok() != rd.ok() || r0.full_match() != rd.full_match()) g_default_mismatch = true; }
+
+// a conversion_result that already carries the flags of an earlier successful parse: every to_*(result) call must overwrite them
+static ST::conversion_result used_result() { ST::conversion_result r; (void)ST::string("7").to_long(r, 10); return r; }
+
 template <class R, class F1, class F2> static std::string one_member(const char *name, F1 with_res, F2 without) {
-    ST::conversion_result r;
+    ST::conversion_result r = used_result();
     R v = with_res(r); R nv = without();
     std::string o = std::string(" ") + name + "=" + show_val(v) + "," + (r.ok() ? "1" : "0") + (r.full_match() ? "1" : "0") + "," + show_val(nv);
     return o;
@@ -76,6 +84,10 @@ template <class R, class F1, class F2> static std::string one_member(const char 
 // every to_* member of the requested signedness with at least `minbits` bits
 static std::string members(const ST::string &s, int base, bool sgn, int minbits) {
     std::string o;
+    g_default_mismatch = false;
+    VH_DEFAULTS(short, to_short) VH_DEFAULTS(int, to_int) VH_DEFAULTS(long, to_long) VH_DEFAULTS(long long, to_long_long) VH_DEFAULTS(int64_t, to_int64)
+    VH_DEFAULTS(unsigned short, to_ushort) VH_DEFAULTS(unsigned int, to_uint) VH_DEFAULTS(unsigned long, to_ulong) VH_DEFAULTS(unsigned long long, to_ulong_long) VH_DEFAULTS(uint64_t, to_uint64)
+    if (g_default_mismatch) return " !default-argument-mismatch";
     if (sgn) {
         if (minbits <= 16) o += one_member<short>("short", [&](ST::conversion_result &r) { return s.to_short(r, base); }, [&] { return s.to_short(base); });
         if (minbits <= 32) o += one_member<int>("int", [&](ST::conversion_result &r) { return s.to_int(r, base); }, [&] { return s.to_int(base); });
@@ -208,6 +220,16 @@ static std::string exec_case(const Args &a) {
     if (op == "num.fmt") return do_fmt(a.get("ty"), a.get("cls"), a.get("v"));
     if (op == "num.ss") return do_ss(a.get("ty"), a.get("v"));
     if (op == "num.parse") return do_parse(parse_bytes(a.get("in")), (int)a.snum("base"));
+    if (op == "num.bool") {   // to_bool() / to_bool(result): "true" / "false" in any letter case, otherwise to_int() != 0; from_bool of the value
+        std::string bytes = parse_bytes(a.get("in"));
+        return guarded([&]() -> std::string {
+            ST::string s = raw_string(bytes);
+            ST::conversion_result r = used_result();
+            bool v = s.to_bool(), vr = s.to_bool(r);
+            return std::string("ok v=") + (v ? "1" : "0") + " r=" + (vr ? "1" : "0") + "," + (r.ok() ? "1" : "0") + (r.full_match() ? "1" : "0") +
+                   " fb=" + hex_bytes(str_bytes(ST::string::from_bool(v)));
+        });
+    }
     if (op == "blk.num.i16") {   // route=from|fmt|ss sgn=0|1 base= up= lo= n=   (value index 0..65535; signed: index - 32768)
         std::string route = a.get("route"); bool sgn = a.num("sgn") != 0; int base = (int)a.num("base"); bool up = a.num("up") != 0;
         uint64_t lo = a.num("lo"), n = a.num("n");
@@ -369,6 +391,17 @@ static void gen(Emitter &em, const Options &opt) {
                 emit("blk.num.parse base=" + std::to_string(base) + " alpha=" + hex_bytes(alpha2) + " len=" + std::to_string(len) + " lo=" + std::to_string(lo) +
                      " n=" + std::to_string(std::min<uint64_t>(2048, tot - lo)));
         }
+
+    // ---- booleans: the two words in every letter case, near misses, numerals (to_int() != 0, base 0), empty, NUL inside
+    {
+        std::vector<std::string> texts = {"", "0", "1", "-1", "00", "0x0", "0x10", "010", "  7", "7 ", "true ", " true", "tru", "truee", "fals", "false0", "yes", "no", "t", "f",
+                                          "2147483648", "4294967296", "-2147483649", "+0", "-0", "0.5", "1e3", std::string("true\0", 5), std::string("\0true", 5), std::string("1\0", 2)};
+        for (int mask = 0; mask < 16; ++mask) { std::string w = "true"; for (int i = 0; i < 4; ++i) if (mask >> i & 1) w[i] = (char)(w[i] - 32); texts.push_back(w); }
+        for (int mask = 0; mask < 32; ++mask) { std::string w = "false"; for (int i = 0; i < 5; ++i) if (mask >> i & 1) w[i] = (char)(w[i] - 32); texts.push_back(w); }
+        // bit-5 near misses of the letters (what a too-eager case fold would accept)
+        for (const char *w : {"\x14rue", "tRU\x05", "fal\x13e", "F\x01LSE", "t\x12ue", "TRUE\x20", "tr\xD5" "e"}) texts.push_back(w);
+        for (auto &t : texts) emit("num.bool in=" + hex_bytes(t));
+    }
 
     // ---- near-overflow numerals in every base (individually): limits of every result type, +-1, one more digit,
     //      with sign / prefix / white space / trailing text variations
